@@ -453,7 +453,8 @@ def run_snap(program):
     from zope.interface import Interface, implementer
     from zope.interface.adapter import VerifyingAdapterRegistry
     from zope.interface.interface import InterfaceClass
-    L, k, m, warm = program
+    L, k, m, warm = program[:4]
+    first = program[4] if len(program) > 4 else 0        # the entry point that is asked first after the mutation (the others follow)
     if not (1 <= k < L):
         return None
     IR = InterfaceClass('IR', (Interface,), __module__='snap')
@@ -502,14 +503,15 @@ def run_snap(program):
                 extra.subscribe([IR], IP, 'late-sub-in-new-base')
 
     def obs(r):
-        out = []
-        for f in (lambda: r.lookup((IR,), IP), lambda: r.lookup1(IR, IP), lambda: r.queryAdapter(ob, IP, default='dflt'),
-                  lambda: r.adapter_hook(IP, ob, '', 'dflt'), lambda: sorted(r.lookupAll((IR,), IP)), lambda: sorted(r.names((IR,), IP)),
-                  lambda: list(r.subscriptions((IR,), IP)), lambda: r.lookup((IR, IR), IP)):
+        fs = (lambda: r.lookup((IR,), IP), lambda: r.lookup1(IR, IP), lambda: r.queryAdapter(ob, IP, default='dflt'),
+              lambda: r.adapter_hook(IP, ob, '', 'dflt'), lambda: sorted(r.lookupAll((IR,), IP)), lambda: sorted(r.names((IR,), IP)),
+              lambda: list(r.subscriptions((IR,), IP)), lambda: r.lookup((IR, IR), IP))
+        out = [None] * len(fs)
+        for i in [first % len(fs)] + [j for j in range(len(fs)) if j != first % len(fs)]:
             try:
-                out.append(repr(f()))
+                out[i] = repr(fs[i]())
             except Exception as e:   # noqa
-                out.append(_exc(e))
+                out[i] = _exc(e)
         return out
     regs = build(True)
     trace = {}
